@@ -138,6 +138,40 @@ def check(c, item):
                 c.violation('C18/parameters-changed', 'parameter values changed by the sensitivity to %s (%s): %s -> %s' % (pname, method, before, after),
                             dict(case, param=pname, method=method))
                 m.set_params(before)
+    # the same Model object, re-parameterised: answers must follow the current values (no stale snapshot)
+    P1 = {k_: (v_ * 1.5 + 0.2) for k_, v_ in P0.items()}
+    m.set_params(dict(P1))
+    now = dict(m.get_parameter_dictionary())
+    for method, p in (('central_difference', 2), ('fourth_order_central_difference', 4)):
+        for pname in P1:
+            Z = np.asarray(py_get_sensitivity_to_parameter(m, x_model, pname, method=method))
+            c.count('evaluations'); c.count('transitions', n)
+            for i in range(n):
+                def g(v, i=i):
+                    Pq = dict(P1); Pq[pname] = v
+                    return f(x_model, Pq)[i]
+                st = stencil(g, P1[pname], method)
+                if abs(Z[i] - st) > 1e-7 * (1 + abs(st)):
+                    c.violation('C18/sensitivity/%s/after-set_params' % method, 'after Model.set_params the sensitivity d f_%s / d %s = %r, the scheme at the current '
+                                'parameters gives %r' % (order[i], pname, Z[i], st), dict(case, i=i, param=pname, method=method, params=P1))
+                    break
+            after = dict(m.get_parameter_dictionary())
+            if after != now:
+                c.violation('C18/parameters-changed/after-set_params', 'parameters set with Model.set_params were changed by a sensitivity call: %s -> %s' % (now, after),
+                            dict(case, param=pname, method=method))
+                m.set_params(now)
+        J = np.asarray(py_get_jacobian(m, x_model, method=method))
+        for i in range(n):
+            for j in range(n):
+                def g(v, i=i, j=j):
+                    x = x_model.copy(); x[j] = v
+                    return f(x, P1)[i]
+                st = stencil(g, x_model[j], method)
+                if abs(J[i, j] - st) > 1e-7 * (1 + abs(st)):
+                    c.violation('C18/jacobian/%s/after-set_params' % method, 'after Model.set_params d f_%s / d %s = %r, the scheme at the current parameters gives %r' % (
+                        order[i], order[j], J[i, j], st), dict(case, i=i, j=j, method=method, params=P1))
+    m.set_params(dict(P0))
+    before = dict(m.get_parameter_dictionary())
     # parameters survive failing calls as well
     for bad_call in (lambda: py_get_sensitivity_to_parameter(m, x_model, 'no_such_parameter'),
                      lambda: py_get_sensitivity_to_parameter(m, x_model, 'k', method='no_such_method'),
